@@ -64,13 +64,24 @@ class ResHandle(desper.Handle):
 
     def __init__(self, tag):
         self.tag = tag
-        self.res = ('resource', tag)
+        self.loads = 0
 
     def load(self):
         if self.fail_next:
             self.fail_next = False
             raise fx.TransientError('resource %s failed to load' % self.tag)
-        return self.res
+        self.loads += 1
+        return ['resource', self.tag, self.loads]       # a new object at every load, as real loaders produce
+
+
+class LazyRes:
+    """expected constructor value of a $res{...} argument: the resource the handle yields (asked when the world is
+    compared, i.e. after it was loaded: a handle that was cleared in between has loaded anew by then)"""
+    def __init__(self, handle):
+        self.handle = handle
+
+    def __repr__(self):
+        return 'resource of %s' % self.handle.tag
 
 
 def decode_arg(p):
@@ -166,7 +177,7 @@ def _run(case, tmp):
         path = RES_PATHS[ix]
         if kind == 'res':
             facts['ref_res'] += 1
-            return ('$res{%s}' % path if as_file else res[path]()), res[path](), True
+            return ('$res{%s}' % path if as_file else res[path]()), LazyRes(res[path]), True
         facts['ref_handle'] += 1
         return ('$handle{%s}' % path if as_file else res[path]), res[path], True
 
@@ -412,6 +423,8 @@ def build_item(it, dotted, typ, render, as_file, tag):
 
 
 def same(got, exp, ident):
+    if isinstance(exp, LazyRes):
+        exp = exp.handle()
     if ident:
         return got is exp
     return type(got) is type(exp) and got == exp
